@@ -47,6 +47,16 @@ CLAIMS = {
              'extent and cursor, unit/program wiring and v5 legacy tables. Known finding (recorded, not repaired): end_sequence row '
              'forces is_stmt = 0 (readelf compatibility). Not decided: row values of concrete programs. Trusted: DWARF rows in '
              'props/C05.py and spec/dwarf.py.'),
+    'C06': dict(
+        technique='layout interpretation + evaluated pointer-encoding table through the layout IR + dispatch extraction of the '
+                  'instruction split and of the table interpreter with per-branch effect signatures + sibling agreement with the '
+                  'describer + path-based definite assignment + cursor typestate',
+        level=LEVEL,
+        note='Decides: CIE/FDE layouts, discrimination and pointer arithmetic, encoding and augmentation tables, pc-relative '
+             'adjustments, operands of every DW_CFA constant, rule/operand/factor/row per interpreted instruction, restore and '
+             'state stack structure, factor agreement with the describer, no unassigned local, CIE linking under '
+             'preserve_stream_pos. Not decided: decoded tables of concrete sequences. Trusted: §6.4.2/§7.24 rows in props/C06.py; '
+             'named cursor exception for the cache-hit SEEK_CUR (sa/cursor.py).'),
     'C07': dict(
         technique='layout interpretation of every list-entry case struct + evaluation of the translation tables with output normal '
                   'forms and field-membership + format-width rule + stream-cursor typestate with the generator/yield rule + '
